@@ -53,6 +53,8 @@ def replay(case):
         return replay_c15(case, doc, obs)
     if prop == "C11":
         return replay_c11(case, doc, obs)
+    if prop == "C08":
+        return replay_c08(case, doc, obs)
     raise ValueError(prop)
 
 
@@ -587,4 +589,40 @@ def replay_c11(case, doc, obs):
     v = scan_props.c11_pipeline(_t5(o_d["fails"]), _t5(o_p["fails"]), [tuple(x[1:]) for x in o_p["pragma"]], p["at"], p.get("command", "disable-next-line"), p.get("n", 1),
                                 set(p.get("named", [])), p.get("wellformed", True), masked(doc), masked(dp))
     obs.update(with_pragma=dp, violations=v)
+    return {"violates": bool(v), "observed": obs}
+
+
+_MD = None
+
+
+def replay_c08(case, doc, obs):
+    global _MD
+    import os
+    import sys
+
+    from checks.html_real import norm
+    from checks.parse_real import tokenizer
+    from engine.oracles import rfp
+    from pymarkdown.transform_gfm.transform_to_gfm import TransformToGfm
+
+    if _MD is None:
+        sys.path.insert(0, os.path.join(os.path.dirname(os.path.dirname(os.path.abspath(__file__))), "vendor"))
+        from markdown_it import MarkdownIt
+
+        _MD = MarkdownIt("commonmark")
+    try:
+        g = TransformToGfm().transform(tokenizer().transform(doc, show_debug=False))
+    except Exception:  # noqa
+        return {"violates": False, "observed": dict(obs, note="does not parse")}
+    if norm(g) != norm(_MD.render(doc)):
+        return {"violates": False, "observed": dict(obs, note="C03 precondition false")}
+    with Sandbox() as sb:
+        sb.write(F, doc)
+        o = real_main(sb, rule_args(case["params"].get("selection", "default")) + ["fix", F])
+        d1 = sb.read(F)
+    if any("Error" in e for e in o["err"]) or o["code"] == 1:
+        return {"violates": False, "observed": dict(obs, err=o["err"][:1])}
+    f0, f1 = rfp.fingerprint(_MD.parse(doc)), rfp.fingerprint(_MD.parse(d1))
+    v = [] if (d1 == doc or f0 == f1) else [{"kind": "meaning-changed", "detail": {"fixed": d1, "before": f0, "after": f1}}]
+    obs.update(fixed=d1, violations=v)
     return {"violates": bool(v), "observed": obs}
